@@ -219,8 +219,11 @@ def run(ctx, rep):
     rep.floor("N2", 3)
 
     # ---- N3 padding (shared with C15/U5)
-    from rules.C15 import check_padding
+    from rules.C15 import check_padding, check_recovered_string
     check_padding(ctx, rep, "N3")
+    # "... recovered with encoding_to_selfies decodes exactly like the original": the recovered string keeps every position,
+    # a [nop] in the middle included (C15/U7 shared)
+    check_recovered_string(ctx, rep, "N3")
     # the padded encodings handed out are the caller's own: nothing in them is retained by the library (a shared padding
     # row edited by one caller would otherwise show up as non-[nop] padding in a later encoding)
     from sa.effects import Effects
